@@ -262,6 +262,8 @@ impl<'a> Sd<'a> {
         self.decode_map::<K, V, N, M1>(&m, &log, &bs, &bl, &descr);
         self.decode_map::<K, V, N, M2>(&m, &log, &bs, &bl, &descr);
         self.decode_map::<K, V, N, M3>(&m, &log, &bs, &bl, &descr);
+        self.foreign_map::<K, V, M1>(&mut rng);
+        self.foreign_map::<K, V, N>(&mut rng);
         if self.cx.rep.samples.len() < 3 && !m.is_empty() {
             self.cx.rep.sample(format!("{}: recorded stream {:?}", descr, &log[..log.len().min(7)]));
         }
@@ -374,8 +376,131 @@ impl<'a> Sd<'a> {
         self.decode_set::<T, N, N>(&s, &log, &bs, &descr);
         self.decode_set::<T, N, M1>(&s, &log, &bs, &descr);
         self.decode_set::<T, N, M2>(&s, &log, &bs, &descr);
+        self.foreign_set::<T, M1>(&mut rng);
+        self.foreign_set::<T, N>(&mut rng);
         if ledger::viol_total() > 0 {
             self.cx.rep.absorb_violations("C20", &|| vec![descr.clone(), format!("history {}", hist)]);
+        }
+    }
+    /// Payloads that were NOT written by micromap: a sequence of pairs with REPEATED keys has the same
+    /// encoding as a map (and a `Vec<T>` with repeats the same as a set).  Decoding is an operation like any
+    /// other: the container it leaves must be well-formed (C05), and if it holds the entries single inserts
+    /// would have left it must compare equal to the container built that way (C14).
+    fn foreign_map<K: SE, V: SE, const M: usize>(&mut self, rng: &mut Rng) {
+        if M == 0 {
+            return;
+        }
+        let l = rng.usize_below(M + 1);
+        let u = (M as u64 * 2 / 3).max(1);
+        let items: Vec<(K, V)> = (0..l).map(|i| (K::mk(rng.below(u) as u32), V::mk(100 + i as u32))).collect();
+        let mut built: Map<K, V, M> = Map::new();
+        for (k, x) in items.iter().cloned() {
+            built.insert(k, x);
+        }
+        let repeats = built.len() < items.len();
+        self.cx.rep.evaluations += 1;
+        self.cx.rep.hit(&format!("foreign-payload:map:{}", if repeats { "repeated-keys" } else { "distinct-keys" }));
+        let descr = format!("pairs (key, value) = {:?} decoded as Map<{},{},{}>", items.iter().map(|(k, x)| (val(k), val(x))).collect::<Vec<_>>(), K::NAME, V::NAME, M);
+        let mklog = |hint: Option<usize>| {
+            let mut log = vec![Ev::MapStart(hint)];
+            for (k, x) in &items {
+                log.push(Ev::Key(val(k)));
+                log.push(Ev::Value(val(x)));
+            }
+            log.push(Ev::End);
+            log
+        };
+        let bs = bincode::serde::encode_to_vec(&items, bincode::config::standard()).unwrap_or_default();
+        let bl = bincode::serde::encode_to_vec(&items, bincode::config::legacy()).unwrap_or_default();
+        let decoded: Vec<(&str, Caught<Result<Map<K, V, M>, String>>)> = vec![
+            ("stream announcing its exact length", fault::catch(|| Map::<K, V, M>::deserialize(Replayer { log: mklog(Some(l)) }).map_err(|e| e.0))),
+            ("stream without a length", fault::catch(|| Map::<K, V, M>::deserialize(Replayer { log: mklog(None) }).map_err(|e| e.0))),
+            ("bincode(standard) of a Vec of pairs", fault::catch(|| bincode::serde::decode_from_slice::<Map<K, V, M>, _>(&bs, bincode::config::standard()).map(|x| x.0).map_err(|e| e.to_string()))),
+            ("bincode(legacy) of a Vec of pairs", fault::catch(|| bincode::serde::decode_from_slice::<Map<K, V, M>, _>(&bl, bincode::config::legacy()).map(|x| x.0).map_err(|e| e.to_string()))),
+        ];
+        for (what, r) in decoded {
+            let d = match r {
+                Caught::Ok(Ok(d)) => d,
+                // the property of the round trip speaks about micromap's own output only: a decoder may refuse a
+                // foreign payload, but whatever it hands out has to be a well-formed container
+                _ => continue,
+            };
+            let mut ents: Vec<(Val, Val)> = d.iter().map(|(k, x)| (val(k), val(x))).collect();
+            let n_iter = ents.len();
+            ents.sort();
+            let dup = ents.windows(2).any(|w| w[0].0 == w[1].0);
+            if dup {
+                ledger::violation("C05", "duplicate-key@deserialize(foreign payload)", format!("{} [{}]: the decoded map yields entries {:?} - a key twice", what, descr, ents));
+            }
+            if d.len() != n_iter || d.len() > M || d.is_empty() != (d.len() == 0) {
+                ledger::violation("C05", "len-vs-iteration@deserialize(foreign payload)", format!("{} [{}]: len() = {} but iteration yields {} entries (capacity {})", what, descr, d.len(), n_iter, M));
+            }
+            for (k, x) in d.iter() {
+                if d.get(k) != Some(x) {
+                    ledger::violation("C05", "lookup-vs-iteration@deserialize(foreign payload)", format!("{} [{}]: key {:?} is yielded with value {:?} but get() gives {:?}", what, descr, val(k), val(x), d.get(k).map(val)));
+                }
+            }
+            let mut want: Vec<(Val, Val)> = built.iter().map(|(k, x)| (val(k), val(x))).collect();
+            want.sort();
+            if ents == want && (!(d == built) || !(built == d) || d != built) {
+                ledger::violation("C14", "wrong-answer@map==(decoded operand)", format!("{} [{}]: the decoded map holds exactly the entries {:?} of the map built by single inserts but does not compare equal to it", what, descr, want));
+            }
+        }
+    }
+
+    fn foreign_set<T: SE, const M: usize>(&mut self, rng: &mut Rng) {
+        if M == 0 {
+            return;
+        }
+        let l = rng.usize_below(M + 1);
+        let u = (M as u64 * 2 / 3).max(1);
+        let items: Vec<T> = (0..l).map(|_| T::mk(rng.below(u) as u32)).collect();
+        let mut built: Set<T, M> = Set::new();
+        for k in items.iter().cloned() {
+            built.insert(k);
+        }
+        let repeats = built.len() < items.len();
+        self.cx.rep.evaluations += 1;
+        self.cx.rep.hit(&format!("foreign-payload:set:{}", if repeats { "repeated-elements" } else { "distinct-elements" }));
+        let descr = format!("elements {:?} decoded as Set<{},{}>", items.iter().map(val).collect::<Vec<_>>(), T::NAME, M);
+        let mklog = |hint: Option<usize>| {
+            let mut log = vec![Ev::SeqStart(hint)];
+            for k in &items {
+                log.push(Ev::Elem(val(k)));
+            }
+            log.push(Ev::End);
+            log
+        };
+        let bs = bincode::serde::encode_to_vec(&items, bincode::config::standard()).unwrap_or_default();
+        let decoded: Vec<(&str, Caught<Result<Set<T, M>, String>>)> = vec![
+            ("stream announcing its exact length", fault::catch(|| Set::<T, M>::deserialize(Replayer { log: mklog(Some(l)) }).map_err(|e| e.0))),
+            ("stream without a length", fault::catch(|| Set::<T, M>::deserialize(Replayer { log: mklog(None) }).map_err(|e| e.0))),
+            ("bincode(standard) of a Vec", fault::catch(|| bincode::serde::decode_from_slice::<Set<T, M>, _>(&bs, bincode::config::standard()).map(|x| x.0).map_err(|e| e.to_string()))),
+        ];
+        for (what, r) in decoded {
+            let d = match r {
+                Caught::Ok(Ok(d)) => d,
+                _ => continue,
+            };
+            let mut ents: Vec<Val> = d.iter().map(val).collect();
+            let n_iter = ents.len();
+            ents.sort();
+            if ents.windows(2).any(|w| w[0] == w[1]) {
+                ledger::violation("C05", "duplicate-key@deserialize(foreign payload)", format!("{} [{}]: the decoded set yields {:?} - an element twice", what, descr, ents));
+            }
+            if d.len() != n_iter || d.len() > M || d.is_empty() != (d.len() == 0) {
+                ledger::violation("C05", "len-vs-iteration@deserialize(foreign payload)", format!("{} [{}]: len() = {} but iteration yields {} elements (capacity {})", what, descr, d.len(), n_iter, M));
+            }
+            for k in d.iter() {
+                if !d.contains(k) {
+                    ledger::violation("C05", "lookup-vs-iteration@deserialize(foreign payload)", format!("{} [{}]: element {:?} is yielded but contains() denies it", what, descr, val(k)));
+                }
+            }
+            let mut want: Vec<Val> = built.iter().map(val).collect();
+            want.sort();
+            if ents == want && (!(d == built) || !(built == d) || d != built) {
+                ledger::violation("C14", "wrong-answer@set==(decoded operand)", format!("{} [{}]: the decoded set holds exactly the elements {:?} of the set built by single inserts but does not compare equal to it", what, descr, want));
+            }
         }
     }
 }
